@@ -1,7 +1,8 @@
 #!/bin/bash
 # usage: seedregress.sh [ID ...]   — runs the quick check of each property against every stored seeded
 # change of that property (scratch worktrees, /repo untouched) and prints one line per seed.
-# A stored seed is expected to give rc=1. Four properties run in parallel; seeds of one property run
+# A stored seed is expected to give rc=1 (with the check named in meta.json verification.caught_by when
+# the change falls into another property's domain). Four properties run in parallel; seeds of one property run
 # one after another (they share .work/<ID>).
 cd /verif
 IDS=("$@"); [ ${#IDS[@]} -eq 0 ] && IDS=($(cat READY))
@@ -11,7 +12,8 @@ one() {
  for d in /verif/seeded/$ID-*; do
   [ -f $d/patch.diff ] || continue
   k=${d##*/}
-  TAILN=3 tools/mutrun.sh $ID sr$$ $d/patch.diff > $OUT/$k.log 2>&1
+  BY=$(python3 -c "import json,sys;print(json.load(open(sys.argv[1])).get('verification',{}).get('caught_by',sys.argv[2]))" $d/meta.json $ID)
+  TAILN=3 tools/mutrun.sh $BY sr$$ $d/patch.diff > $OUT/$k.log 2>&1
   echo "$k $(tail -1 $OUT/$k.log | sed 's/.*: //')"
  done
 }
